@@ -174,13 +174,13 @@ def template_spans(ref, names):
 
 
 def fit_choice_tie(ctx: Ctx, drv: Driver, m: Monitor):
-    """the three atoms repair_heavy fitted on (template names from the pairing record) against the model's fitAtoms
+    """the three atoms repair_heavy / add_hydrogens (superposition route) fitted on (template names from the pairing record) against the model's fitAtoms
     for that residue's run-time reference and the atoms present at that moment"""
     from core import hexs, unhexs
 
     reqs, recs = [], []
     for c in m.created:
-        if c.get("caller") != "repair_heavy" or not c.get("pairing") or c.get("present") is None:
+        if c.get("caller") not in ("repair_heavy", "add_hydrogens") or not c.get("pairing") or c.get("present") is None:
             continue
         if any(t is None for t, _w, _a in c["pairing"]):
             continue
@@ -194,9 +194,9 @@ def fit_choice_tie(ctx: Ctx, drv: Driver, m: Monitor):
         f, _, loc = a.partition("|")
         got = [unhexs(t) for t in f.split(",")] if f else []
         want = [t for t, _w, _a in c["pairing"]]
-        ctx.count("fit-choice", "local" if loc == "1" else "spans-a-rotatable-bond")
+        ctx.count("fit-choice", c["caller"] + ":" + ("local" if loc == "1" else "spans-a-rotatable-bond"))
         if got != want:
-            ctx.disagree("repair_heavy (choice of the three fit atoms)", {"residue": str(c["residue"]), "atom": c["name"], "present": c["present"]}, got, want)
+            ctx.disagree(c["caller"] + " (choice of the three fit atoms)", {"residue": str(c["residue"]), "atom": c["name"], "present": c["present"]}, got, want)
 
 
 def mfit_coords(c, m, ua):
